@@ -110,12 +110,12 @@ PROP = {
           encodes=_POOL + ["Ipv6Slice::from_slice", "Ipv6ExtensionsSlice iterator", "Ipv6FragmentHeaderSlice::to_header"]),
         H("c11_pool_stored_key_v4", "c11", unwind=5, timeout=1500, features=_F,
           bounds="1 accepted fragment: IPv4, 0..2 VLAN tags, all ids / addresses / protocol / channel; the key stored by the pool "
-                 "(hook verif_active_ids) is compared component by component with the packet's fields",
-          encodes=_POOL + ["IpDefragPool::verif_active_ids (hook)", "Ipv4Slice::from_slice"]),
+                 "(hook verif_first_active_id) is compared component by component with the packet's fields",
+          encodes=_POOL + ["IpDefragPool::verif_first_active_id (hook)", "Ipv4Slice::from_slice"]),
         H("c11_pool_stored_key_v6", "c11", unwind=5, timeout=2400, features=_F,
           bounds="1 accepted fragment: IPv6 + fragment header, 0..2 VLAN tags, all ids / addresses / protocol / channel; stored key "
                  "compared component by component",
-          encodes=_POOL + ["IpDefragPool::verif_active_ids (hook)", "Ipv6Slice::from_slice"]),
+          encodes=_POOL + ["IpDefragPool::verif_first_active_id (hook)", "Ipv6Slice::from_slice"]),
         H("c11_pool_non_ip", "c11", tier="thorough", unwind=5, timeout=2400, features=_F,
           bounds="1 delivery: any well formed 28 byte ARP packet or no net layer, pool with 1 recycled buffer",
           encodes=["IpDefragPool::{new,return_buf,process_sliced_packet,verif_counts (hook)}", "ArpPacketSlice::from_slice"]),
